@@ -109,19 +109,29 @@ def run(ck):
     quadrature(ck, em, rng, 6 if quick else 14)
 
 
-def build(em, m):
+def build(em, m, history=False):
     C = len(m["w"])
     g = em.GMMMachine(C, weights=np.array([float(F(*x)) for x in m["w"]]))
+    means = np.array([[float(F(*x)) for x in row] for row in m["mu"]])
+    var = np.array([[float(F(*x)) for x in row] for row in m["var"]])
+    if history:
+        # the same machine reached another way: configured with a low floor, used, then the floor is raised
+        g.variance_thresholds = 1e-3
+        g.means = means
+        g.variances = var
+        g.log_likelihood(means[:1])
+        g.variance_thresholds = float(F(*m["floor"]))
+        return g
     g.variance_thresholds = float(F(*m["floor"]))
-    g.means = np.array([[float(F(*x)) for x in row] for row in m["mu"]])
-    g.variances = np.array([[float(F(*x)) for x in row] for row in m["var"]])
+    g.means = means
+    g.variances = var
     return g
 
 
 def replay(ck, em, rec):
     import dask
     import dask.array as da
-    g = build(em, rec["m"])
+    g = build(em, rec["m"], history=(len(rec["batch"]) + len(rec["comp"])) % 2 == 1)
     X = np.array(rec["batch"], dtype=float)
     n, D = X.shape
     exp_terms = [[term_value(t) for t in row] for row in rec["out"]]       # [row][component]
